@@ -50,6 +50,8 @@ def driver_configs():
     # explicit ground-truth annotators on a 3-annotator reference (given as an unordered collection)
     out.append({"sampler": "shuffle", "mode": "exact", "n": 2, "prec": None, "gt": ["c", "a"]})
     out.append({"sampler": "stat", "mode": "soft", "n": 2, "prec": None, "gt": ["b", "c"]})
+    # a reference large enough for fast-gamma to pick a finite window (the windowed path really runs in the jobs)
+    out.append({"sampler": "shuffle", "mode": "fast", "n": 2, "prec": None, "big": [5, 8]})
     out.append({"sampler": "shuffle", "mode": "exact", "n": 2, "prec": 0.5})
     return out
 
@@ -62,7 +64,11 @@ def make_driver(dc, seed=5):
 
     def driver():
         np.random.seed(seed)
-        c = build_continuum(REF3 if dc.get("gt") else REF)
+        if dc.get("big"):
+            from ..universe import fam_staircase
+            c = build_continuum(fam_staircase(*dc["big"]))
+        else:
+            c = build_continuum(REF3 if dc.get("gt") else REF)
         s = None if dc["sampler"] == "stat" else pa.ShuffleContinuumSampler()
         gt = set(dc["gt"]) if dc.get("gt") else None
         res = c.compute_gamma(d, n_samples=dc["n"], precision_level=dc["prec"], sampler=s,
@@ -84,7 +90,11 @@ def configs(tier):
     dcs = driver_configs()
     for i, dc in enumerate(dcs):
         for W in (1, 2, 3):
-            if tier == "quick":
+            if dc.get("big"):
+                if W != 2:
+                    continue
+                bound = 1
+            elif tier == "quick":
                 bound = 2 if W == 2 else 1
             else:
                 bound = 3 if W == 2 else 2
